@@ -145,11 +145,19 @@ def rule_coef_solve(F, ev, R, config, rule="R-COEF-SOLVE"):
             R.add(rule, config, b.key, "rhs-is-weighted-data@" + fl, okrhs,
                   "" if okrhs else "solve() right-hand side is `%s`, not the stored weighted observations" % short(rhs)[:160], s.get("span"))
             # SVD of W·eval(model) with U and V
-            oksvd = svd_t[0] == "call" and svd_t[1].rsplit("::", 1)[-1] in ("svd", "svd_unordered", "try_svd") and len(svd_t[3]) >= 3
-            if not oksvd:
+            sv = svd_ctor_term(svd_t)
+            if sv is None:
                 R.bad(rule, config, b.key, "svd-of-weighted-basis@" + fl, "decomposition is `%s` (undetermined)" % short(svd_t)[:160], s.get("span"))
                 continue
-            X, cu, cv = svd_t[3][0], svd_t[3][1], svd_t[3][2]
+            X, cu, cv = sv
+            tun = svd_tuning(svd_t)
+            if tun is not None:
+                # an entry point with its own convergence tolerance: the factors are only as accurate as that tolerance,
+                # which therefore must not be a caller-controlled quantity (such as the truncation epsilon)
+                oktol = not input_dependent(tun[0])
+                R.add(rule, config, b.key, "svd-accurate@" + fl, oktol,
+                      "" if oktol else "the decomposition is computed with the convergence tolerance `%s`: with a coarse value the factors handed to "
+                      "solve() are not an SVD of W·Φ and the coefficients are not the least-squares solution" % short(tun[0])[:80], s.get("span"))
             okuv = cu == ("const", "bool", 1) and cv == ("const", "bool", 1)
             R.add(rule, config, b.key, "svd-computes-u-and-v@" + fl, okuv,
                   "" if okuv else "SVD requested without U or V (compute_u=%s, compute_v=%s): solve()/jacobian() need both" % (short(cu), short(cv)), s.get("span"))
@@ -197,7 +205,7 @@ def rule_resid_term(F, ev, R, config, rule="R-RESID-TERM"):
                     msg = "minuend of the residuals is `%s`, not the weighted observations" % short(a)[:120]
                 elif prod[0] == "call" and prod[1] == "std::ops::Mul::mul" and len(prod[3]) == 2:
                     X, Cc = prod[3]
-                    svdX = svd_t[3][0] if svd_t and svd_t[0] == "call" and svd_t[3] else None
+                    svdX = svd_ctor_term(svd_t)[0] if svd_t and svd_ctor_term(svd_t) else None
                     if Cc != C:
                         msg = "the coefficients multiplied into the residuals are not the cached coefficients"
                     elif X != svdX:
